@@ -158,6 +158,9 @@ enum AState {
 pub enum Ev3 {
     /// producer op returned: (op index, ok?)
     Op(usize, bool),
+    /// the same with what the judge of C11 needs: the op began after the consumer had dropped the
+    /// body; it had something to hand over (raw: completes a chunk / flushes buffered bytes; gzip: flush)
+    OpDetail { i: usize, ok: bool, began_after_body_drop: bool, hands_over: bool },
     Drop,
     /// consumer poll: (waker id, hint lower, hint upper, is_end [when sampled], result, delivered before)
     Poll { waker: usize, hint: Option<(u64, Option<u64>, bool)>, ev: Ev, before: u64, prod_done_at_start: bool, abort_returned_at_start: bool, published_at_start: u64 },
@@ -567,6 +570,12 @@ fn run_sched_on(case: &SchedCase, pool: &(ActorThread, ActorThread)) -> Option<S
                     if sched.lock().aborted_run {
                         break;
                     }
+                    let began_after_body_drop = sched.lock().body_dropped;
+                    let hands_over = match op {
+                        POp::Write(n) => !gzip && buffered + *n as u64 >= chunk,
+                        POp::Flush => gzip || buffered > 0,
+                        _ => false,
+                    };
                     let ok = match op {
                         POp::Write(n) => {
                             let start = accepted_bytes.lock().unwrap().len() as u64;
@@ -610,7 +619,11 @@ fn run_sched_on(case: &SchedCase, pool: &(ActorThread, ActorThread)) -> Option<S
                         }
                     };
                     op_results.lock().unwrap().push(ok);
-                    sched.lock().events.push(Ev3::Op(i, ok));
+                    {
+                        let mut g = sched.lock();
+                        g.events.push(Ev3::Op(i, ok));
+                        g.events.push(Ev3::OpDetail { i, ok, began_after_body_drop, hands_over });
+                    }
                     diagnose(&sched, &body, &format!("after op {} ({:?}) returned", i, op));
                 }
                 drop(w.take());
